@@ -30,7 +30,8 @@ InitUsers == [n \in Names |->
 
 \* session credentials: valid tokens by owner, and the ways a token can be invalid
 ValidSess   == {"tok-alice", "tok-bob", "tok-Alice", "tok-eve-staleadmin"}
-InvalidSess == {"garbage", "expired", "tampered", "other-instance", "future"}
+InvalidSess == {"garbage", "expired", "tampered", "other-instance", "future",
+                "expired-after-use"}     \* an administrator's token that was presented (and accepted) while it was valid and has expired since
 Sess        == {"none"} \cup ValidSess \cup InvalidSess
 OldPw       == {"none", "right", "wrong"}
 Endpoints   == {"add", "remove", "set-admin", "list", "list-full", "update", "authenticate"}
